@@ -318,3 +318,172 @@ func subSourceKinds() mon.Sub {
 		},
 	}
 }
+
+// ---- destination kinds (the encoder must not depend on what kind of writer it is given)
+
+// plainW only has Write; it records the calls.
+type plainW struct {
+	data  []byte
+	calls int
+}
+
+func (w *plainW) Write(p []byte) (int, error) {
+	w.calls++
+	w.data = append(w.data, p...)
+	return len(p), nil
+}
+
+// richW offers the optional writer interfaces a fast path may look for.
+type richW struct {
+	plainW
+	strings, bytesW, readFroms int
+}
+
+func (w *richW) WriteString(s string) (int, error) {
+	w.strings++
+	w.data = append(w.data, s...)
+	return len(s), nil
+}
+
+func (w *richW) WriteByte(b byte) error {
+	w.bytesW++
+	w.data = append(w.data, b)
+	return nil
+}
+
+func (w *richW) ReadFrom(r io.Reader) (int64, error) {
+	w.readFroms++
+	b, err := io.ReadAll(r)
+	w.data = append(w.data, b...)
+	return int64(len(b)), err
+}
+
+var dstKinds = []string{"bytes.Buffer", "plain", "rich", "bufio16", "bufio64", "bufio4096", "bufio16-used", "pipe"}
+
+// mkDest returns a destination of the given kind and a function that finishes
+// it and returns every byte it received.
+func mkDest(kind string) (io.Writer, func() []byte) {
+	switch kind {
+	case "plain":
+		w := &plainW{}
+		return w, func() []byte { return w.data }
+	case "rich":
+		w := &richW{}
+		return w, func() []byte { return w.data }
+	case "bufio16", "bufio64", "bufio4096":
+		var sz int
+		fmt.Sscanf(kind, "bufio%d", &sz)
+		under := &plainW{}
+		bw := bufio.NewWriterSize(under, sz)
+		return bw, func() []byte { bw.Flush(); return under.data }
+	case "bufio16-used":
+		// a buffered writer that already holds part of something else (the handshake
+		// response, say) when the first frame is written
+		under := &plainW{}
+		bw := bufio.NewWriterSize(under, 16)
+		bw.WriteString("HTTP/1.1 101")
+		return bw, func() []byte { bw.Flush(); return under.data[len("HTTP/1.1 101"):] }
+	case "pipe":
+		pr, pw := io.Pipe()
+		done := make(chan []byte, 1)
+		go func() {
+			var all []byte
+			p := make([]byte, 7)
+			for {
+				n, err := pr.Read(p)
+				all = append(all, p[:n]...)
+				if err != nil {
+					done <- all
+					return
+				}
+			}
+		}()
+		return pw, func() []byte { pw.Close(); return <-done }
+	}
+	var b bytes.Buffer
+	return &b, func() []byte { return b.Bytes() }
+}
+
+// subDestKinds: 1-4 frames written with ws.WriteHeader + payload, ws.WriteFrame
+// and ws.MustWriteFrame to every kind of destination: the bytes received are
+// the reference encoding, whatever optional interfaces the destination has and
+// whatever it already holds.
+func subDestKinds() mon.Sub {
+	return mon.Sub{
+		Name: "dest-kinds", Required: true,
+		N: func(t string) int {
+			if t == "thorough" {
+				return 40000
+			}
+			return 1500
+		},
+		Do: func(c *mon.C) {
+			n := 1 + c.Rng.Intn(4)
+			var frames []ws.Frame
+			var want []byte
+			var desc []string
+			for i := 0; i < n; i++ {
+				h := ref.Header{Fin: c.Rng.Intn(2) == 0, Rsv: byte(c.Rng.Intn(8)), Op: byte(c.Rng.Intn(16)), Masked: c.Rng.Intn(2) == 0}
+				if h.Masked {
+					c.Rng.Read(h.Mask[:])
+				}
+				p := make([]byte, []int{0, 1, 2, 9, 13, 14, 15, 124, 125, 126, 127, 300, 4090, 65535, 65536}[c.Rng.Intn(15)])
+				if len(p) > 60000 && c.Rng.Intn(3) != 0 {
+					p = p[:6]
+				}
+				c.Rng.Read(p)
+				h.Length = int64(len(p))
+				frames = append(frames, ws.Frame{Header: wsx.ToWS(h), Payload: p})
+				want = append(append(want, ref.EncodeHeader(h)...), p...) // (the frame API sends the payload as given: masking is the caller's business)
+				desc = append(desc, h.String())
+			}
+			for _, kind := range dstKinds {
+				for mode := 0; mode < 3; mode++ {
+					c.Count(1)
+					dst, finish := mkDest(kind)
+					var err error
+					for _, f := range frames {
+						keep := append([]byte(nil), f.Payload...)
+						switch mode {
+						case 0:
+							if err = ws.WriteHeader(dst, f.Header); err == nil {
+								_, err = dst.Write(f.Payload)
+							}
+						case 1:
+							err = ws.WriteFrame(dst, f)
+						case 2:
+							ws.MustWriteFrame(dst, f)
+						}
+						if err != nil {
+							break
+						}
+						if !bytes.Equal(keep, f.Payload) {
+							c.Fail("dest-kinds/payload-touched", fmt.Sprintf("the frame API changed the caller's payload while writing to a %s destination", kind), map[string]interface{}{"headers": desc, "dest": kind, "mode": mode})
+							return
+						}
+					}
+					got := finish()
+					if err != nil || !bytes.Equal(got, want) {
+						c.Fail("dest-kinds/bytes/"+[]string{"WriteHeader", "WriteFrame", "MustWriteFrame"}[mode], fmt.Sprintf("a %s destination received %d bytes (err=%v), the reference encoding has %d; first difference at %d", kind, len(got), err, len(want), firstDiff(got, want)),
+							map[string]interface{}{"headers": desc, "dest": kind, "mode": mode})
+						return
+					}
+				}
+			}
+			c.Classf("n=%d first=%s", n, lenForm(frames[0].Header.Length))
+			c.Sample(map[string]interface{}{"headers": desc, "destinations": dstKinds, "modes": 3})
+		},
+	}
+}
+
+func firstDiff(a, b []byte) int {
+	for i := 0; i < len(a) && i < len(b); i++ {
+		if a[i] != b[i] {
+			return i
+		}
+	}
+	if len(a) < len(b) {
+		return len(a)
+	}
+	return len(b)
+}
